@@ -1,7 +1,7 @@
 (** C09  Every zoom level of a multires file equals direct coarsening of its base.
     Only statements; proofs are in Proofs/ZoomProofs.v.  Model: Model/Zoom.v. *)
 From Cooler Require Import Model.Zoom Proofs.BinsProofs Proofs.PixelsProofs Proofs.CoarsenProofs Proofs.ZoomProofs.
-From Coq Require Import Sorted.
+From Coq Require Import Sorted Permutation.
 
 (** get_multiplier_sequence, when it returns: resn = sorted(set(bases) | set(resolutions)); every entry is
     either a base (pred = -1) or has a predecessor EARLIER in resn of which it is an integer multiple >= 2 *)
@@ -25,8 +25,98 @@ Theorem C09_multseq_complete : forall res bs, Positive res -> Positive bs ->
 Proof. exact multseq_complete. Qed.
 Print Assumptions C09_multseq_complete.
 
+(** zoomify_cooler (bases = (bin size, cooler) per base URI, all valid coolers): when it returns, the levels
+    written are exactly the requested and base resolutions, each once; every level is the copied base
+    (a base is never re-derived, even when it is a multiple of another base) or the DIRECT coarsening of a
+    base by the ratio of resolutions — for any chunk/batch size, whatever chain of intermediate levels the
+    multiplier sequence used; and it refuses exactly when a requested resolution is not a multiple of a base *)
+Theorem C09_zoom_level_eq_direct : forall bases res chunksize batchsize,
+  1 <= chunksize -> 1 <= batchsize -> Positive res -> Positive (map fst bases) ->
+  (forall b c, In (b, c) bases -> ValidCooler c) ->
+  (forall lv, zoomify_cooler bases res chunksize batchsize = Some lv ->
+     Permutation (map fst lv) (np_unique (map fst bases ++ res)) /\ NoDup (map fst lv) /\
+     forall r c, lookup r lv = Some c ->
+       ((In r (map fst bases) /\ lookup r (base_dict bases) = Some c) \/
+        (~ In r (map fst bases) /\ exists b cb k, In b (map fst bases) /\ lookup b (base_dict bases) = Some cb /\
+            2 <= k /\ r = b * k /\ forall cs bs, 1 <= cs -> 1 <= bs -> c = coarsen_c cb k cs bs))
+       /\ ValidCooler c) /\
+  (zoomify_cooler bases res chunksize batchsize = None <->
+     exists r, In r res /\ forall b, In b (map fst bases) -> r mod b <> 0).
+Proof. exact zoom_level_eq_direct. Qed.
+Print Assumptions C09_zoom_level_eq_direct.
+
+(** the step used along the chain: two coarsenings of a valid cooler compose *)
+Theorem C09_coarsen_c_compose : forall c k1 k2 cs1 bs1 cs2 bs2 cs bs,
+  1 <= k1 -> 1 <= k2 -> 1 <= cs1 -> 1 <= bs1 -> 1 <= cs2 -> 1 <= bs2 -> 1 <= cs -> 1 <= bs -> ValidCooler c ->
+  coarsen_c (coarsen_c c k1 cs1 bs1) k2 cs2 bs2 = coarsen_c c (k1 * k2) cs bs.
+Proof. exact coarsen_c_compose. Qed.
+Print Assumptions C09_coarsen_c_compose.
+
+(* --------------------------------------------------- the -r grammar of `cooler zoomify` *)
+(** rB -> exactly the r*2^i <= max, ascending; rN -> exactly the r*{1,2,5}*10^j <= max, ascending
+    (a strictly sorted list is determined by its members: sorted_lt_ext) *)
+Theorem C09_spec_binary : forall start stop, 1 <= start ->
+  (forall y, In y (preferred_sequence start stop true) <-> exists i, 0 <= i /\ y = start * 2 ^ i /\ y <= stop) /\
+  StronglySorted Z.lt (preferred_sequence start stop true).
+Proof. exact preferred_binary_spec. Qed.
+Print Assumptions C09_spec_binary.
+
+Theorem C09_spec_nice : forall start stop, 1 <= start ->
+  (forall y, In y (preferred_sequence start stop false) <->
+     exists j m, 0 <= j /\ (m = 1 \/ m = 2 \/ m = 5) /\ y = start * 10 ^ j * m /\ y <= stop) /\
+  StronglySorted Z.lt (preferred_sequence start stop false).
+Proof. exact preferred_nice_spec. Qed.
+Print Assumptions C09_spec_nice.
+
+Theorem C09_sorted_determined : forall l1 l2, StronglySorted Z.lt l1 -> StronglySorted Z.lt l2 ->
+  (forall y, In y l1 <-> In y l2) -> l1 = l2.
+Proof. exact sorted_lt_ext. Qed.
+Print Assumptions C09_sorted_determined.
+
+(** the expansion itself: items in order; 4DN is an alias for 1000,2000,5000N; plain integers stand for themselves *)
+Theorem C09_spec_expand : forall curres maxres items,
+  expand_spec curres maxres items = concat (map (fun it =>
+    match it with
+    | SpecN => preferred_sequence curres maxres false
+    | SpecB => preferred_sequence curres maxres true
+    | Spec4DN => 1000 :: 2000 :: preferred_sequence 5000 maxres false
+    | SpecIntN r => preferred_sequence r maxres false
+    | SpecIntB r => preferred_sequence r maxres true
+    | SpecInt r => [r]
+    end) items).
+Proof. reflexivity. Qed.
+Print Assumptions C09_spec_expand.
+
 Example ex_C09_multseq :
   get_multiplier_sequence [8;4;16;12] (Some [2;4]) = Some ([2; 4; 8; 12; 16], [-1; 0; 1; 1; 2], [-1; 2; 2; 3; 2]) /\
   get_multiplier_sequence [2;3;6] (Some [1]) = Some ([1; 2; 3; 6], [-1; 0; 0; 2], [-1; 2; 3; 2]) /\
   get_multiplier_sequence [6;7] (Some [2]) = None.
+Proof. vm_compute. repeat split; reflexivity. Qed.
+
+(** a two-base run of the D17 shape (bases 2 and 4 over one chromosome of 4 resp. 2 bins; base 4 carries its
+    own data): level 4 is the COPY of base 4, level 8 derives from it *)
+Definition ex_b2 : cooler := ([(0,0,2);(0,2,4);(0,4,6);(0,6,8)], [8], [((0,0),1);((0,3),2);((2,3),5)]).
+Definition ex_b4 : cooler := ([(0,0,4);(0,4,8)], [8], [((0,1),100)]).
+Example ex_C09_zoomify :
+  zoomify_cooler [(2, ex_b2); (4, ex_b4)] [8] 1 1 =
+    Some [(8, ([(0,0,8)], [8], [((0,0),100)])); (2, ex_b2); (4, ex_b4)] /\
+  zoomify_cooler [(2, ex_b2)] [4; 8] 1 1 =
+    Some [(8, ([(0,0,8)], [8], [((0,0),8)])); (4, ([(0,0,4);(0,4,8)], [8], [((0,0),1);((0,1),2);((1,1),5)])); (2, ex_b2)] /\
+  zoomify_cooler [(2, ex_b2)] [4; 7] 1 1 = None.
+Proof. vm_compute. repeat split; reflexivity. Qed.
+
+Example ex_C09_valid_cooler : ValidCooler ex_b2 /\ ValidCooler ex_b4.
+Proof.
+  split.
+  - exists [[(0,0,2);(0,2,4);(0,4,6);(0,6,8)]]. split; [reflexivity|]. split; [apply valid_blocks_b_sound; reflexivity|].
+    split; [reflexivity|]. split; [apply ssorted_b_rowsorted; reflexivity|apply inrange_b_sound; reflexivity].
+  - exists [[(0,0,4);(0,4,8)]]. split; [reflexivity|]. split; [apply valid_blocks_b_sound; reflexivity|].
+    split; [reflexivity|]. split; [apply ssorted_b_rowsorted; reflexivity|apply inrange_b_sound; reflexivity].
+Qed.
+
+Example ex_C09_spec :
+  expand_spec 10 200 [SpecIntB 10] = [10; 20; 40; 80; 160] /\
+  expand_spec 10 200 [SpecIntN 10] = [10; 20; 50; 100; 200] /\
+  expand_spec 1000 11719 [Spec4DN] = [1000; 2000; 5000; 10000] /\
+  expand_spec 10 200 [SpecInt 20; SpecIntB 40] = [20; 40; 80; 160].
 Proof. vm_compute. repeat split; reflexivity. Qed.
